@@ -380,12 +380,16 @@ class Scheduler:
         # Force the parsing of the routines
         default_frontend_args = self.build_args.copy()
         default_frontend_args['definitions'] = as_tuple(default_frontend_args['definitions']) + self.definitions
-        for item in SFilter(self.file_graph, reverse=True):
-            frontend_args = self.config.create_frontend_args(item.name, default_frontend_args)
-            item.source.make_complete(**frontend_args)
+        parsed = set()
+        while file_items := [item for item in SFilter(self.file_graph, reverse=True) if item.name not in parsed]:
+            for item in file_items:
+                frontend_args = self.config.create_frontend_args(item.name, default_frontend_args)
+                item.source.make_complete(**frontend_args)
+                parsed.add(item.name)
 
-        # Re-build the SGraph after parsing to pick up all new connections
-        self._sgraph = SGraph.from_seed(self.seeds, self.item_factory, self.config)
+            # Re-build the SGraph after parsing to pick up all new connections; these can lead
+            # to files that have not been part of the graph before and need to be parsed, too
+            self._sgraph = SGraph.from_seed(self.seeds, self.item_factory, self.config)
 
     @Timer(logger=perf, text='[Loki::Scheduler] Enriched call tree in {:.2f}s')
     def _enrich(self):
